@@ -200,10 +200,42 @@ def relay_case(kind):
         gevent.spawn(peer, b)
         return a
     # 'starttls-default': no TLS context configured, the library builds its own
-    relay = StaticSmtpRelay('198.51.100.7', 25, socket_creator=creator, ehlo_as='relay.example',
-                            context=None if kind.endswith('-default') else cli_ctx(),
-                            tls_immediately=(kind == 'immediate'), tls_required=kind.startswith('starttls'),
-                            connect_timeout=5, command_timeout=CMD_T, data_timeout=DATA_T)
+    if kind.startswith('defaultsock'):
+        # no socket_creator configured either: the relay opens its own connection, to a listener on the loopback interface that
+        # accepts and then says nothing ('defaultsock-banner') or greets, answers EHLO and falls silent ('defaultsock-mail').
+        # Sockets that do not co-operate with gevent block the whole process in the kernel: no Timeout can fire.
+        lst = gsocket.socket()
+        lst.bind(('127.0.0.1', 0))
+        lst.listen(5)
+        socks.append(lst)
+
+        def acceptor():
+            try:
+                c, _ = lst.accept()
+                socks.append(c)
+                if kind == 'defaultsock-mail':
+                    c.sendall(b'220 ready\r\n')
+                    buf = b''
+                    while b'\n' not in buf:
+                        d = c.recv(4096)
+                        if not d:
+                            return
+                        buf += d
+                    c.sendall(b'250 peer\r\n')
+                while c.recv(4096):
+                    pass
+            except Exception:  # noqa
+                pass
+        gevent.spawn(acceptor)
+        log(t='conn', what='open', conn=0, act='ok')
+        log(t='peer', stage='banner' if kind == 'defaultsock-banner' else 'mail', i=0, act='stall', code=0, conn=0, trans=0, m=0)
+        relay = StaticSmtpRelay('127.0.0.1', lst.getsockname()[1], ehlo_as='relay.example',
+                                connect_timeout=5, command_timeout=CMD_T, data_timeout=DATA_T)
+    else:
+        relay = StaticSmtpRelay('198.51.100.7', 25, socket_creator=creator, ehlo_as='relay.example',
+                                context=None if kind.endswith('-default') else cli_ctx(),
+                                tls_immediately=(kind == 'immediate'), tls_required=kind.startswith('starttls'),
+                                connect_timeout=5, command_timeout=CMD_T, data_timeout=DATA_T)
     env = Envelope('sender1@a.example', ['rcpt1-0@b.example'])
     env.parse(b'Subject: t\r\n\r\nbody\r\n')
     log(t='call', req=1, nrcpt=1)
@@ -228,10 +260,14 @@ def relay_case(kind):
     class Blocked(BaseException):
         pass
 
+    blocked = [0]
+
     def on_alarm(signum, frame):
+        # raised in whichever greenlet sits in the blocking call; repeated, because the relay's clean-up (QUIT) blocks again
+        blocked[0] += 1
         raise Blocked()
     old_handler = signal.signal(signal.SIGALRM, on_alarm)
-    signal.alarm(20)
+    signal.setitimer(signal.ITIMER_REAL, 8 if kind.startswith('defaultsock') else 20, 1.5)
     try:
         pump(0.1)
         for _ in range(6):
@@ -244,13 +280,20 @@ def relay_case(kind):
     except Blocked:
         log(t='advance')
     finally:
-        signal.alarm(0)
+        for _ in range(8):          # let the attempt's own clean-up run into the alarm as often as it needs
+            try:
+                if g.ready() or not blocked[0]:
+                    break
+                gevent.sleep(0.2)
+            except Blocked:
+                pass
+        signal.setitimer(signal.ITIMER_REAL, 0)
         signal.signal(signal.SIGALRM, old_handler)
-    if g.ready():
+    if g.ready() and not blocked[0] and 'r' in res:
         r = dict(res['r'])
         r.update({'t': 'ret', 'req': 1, 'code': 0, 'marker': 0, 'now': res['now']})
         ev.append(r)
-    log(t='end', hung=0 if g.ready() else 1, open=0)
+    log(t='end', hung=0 if (g.ready() and not blocked[0]) else 1, open=0)
     g.kill(block=False)
     try:
         for c in list(relay.pool):
@@ -262,6 +305,9 @@ def relay_case(kind):
             s.close()
         except Exception:  # noqa
             pass
+    if kind.startswith('defaultsock'):
+        return {'cls': 'relaystall-' + kind, 'cfg': {'lmtp': False, 'pipelining': False, 'kind': 'smtp', 'deadline': 1000 + CMD_T,
+                                                     'stage': kind.split('-')[1]}, 'ev': ev}
     return {'cls': 'relaystall-tls-' + kind, 'cfg': {'lmtp': False, 'pipelining': False, 'kind': 'smtp', 'deadline': 1000 + CMD_T, 'stage': 'tls'},
             'ev': ev}
 
@@ -271,7 +317,7 @@ def main():
     f = open(out, 'w')
     stats = {'executions': 0}
     cases = ([('s', k) for k in ('starttls-silent', 'starttls-partial', 'immediate-silent')] if mode == 'server'
-             else [('r', k) for k in ('immediate', 'starttls', 'starttls-default')])
+             else [('r', k) for k in ('immediate', 'starttls', 'starttls-default', 'defaultsock-banner', 'defaultsock-mail')])
     n = 0
     for i, (which, k) in enumerate(cases):
         if i % nshards != shard:
